@@ -10,6 +10,8 @@ CONSTANTS
   FixNonRequest = TRUE
   FixLongWs = FALSE
   FarChoices = {TRUE, FALSE}
+  HasValidator = TRUE
+  NilPointerSkipsValidation = TRUE
 INIT Init
 NEXT Next
 VIEW view
